@@ -54,6 +54,7 @@ static void * observer(void * a) {
 static void run(int tier, int prog) {
   build(); cur = &P[tier][prog];
   mv_start(cur->W);
+  h_maybe_custom_steal(prog, cur->W);
   h_felock_init(&fe, prog & 1);
   myth_thread_t th[8]; int nt = 0;
   if (cur->readff) {
